@@ -148,6 +148,11 @@ func (c *c18Chain) classify(cfg, op string, r *eng.TxRec) string {
 // try executes a configuration message; returns whether the chain accepted it.
 func (c *c18Chain) try(msg sdk.Msg) bool {
 	r := c.e.Exec(eng.Tx{Msgs: []sdk.Msg{msg}, Tag: "configure"})
+	if r != nil && r.OK {
+		// an accepted configuration message must leave exactly the configuration it names
+		mon.ParamEffect(c.e, r, "C18", fmt.Sprintf("configure step %d", r.Step))
+		mon.RoleEffectOf(c.e, r, "C18", fmt.Sprintf("configure step %d", r.Step))
+	}
 	return r != nil && r.OK
 }
 
@@ -303,8 +308,11 @@ func feeConfigs() []feeCfg {
 		{"gov:nil", nil},
 		{"gov:zero-coin", &zero},
 		{"gov:1stake", coinP("stake", 1)},
+		{"gov:zero-coin-after-positive", &zero},
 		{"gov:1uregen", coinP("uregen", 1)},
+		{"gov:nil-after-positive", nil},
 		{"gov:large", coinP("stake", 987654321012)},
+		{"gov:zero-coin-other-denom-after-positive", coinP("uregen", 0)},
 		{"gov:20000000stake", coinP("stake", 20000000)},
 	}
 }
